@@ -310,7 +310,14 @@ def run(repo, tier) -> Result:
     # Hexital.reading finds the reading wherever its indicator's candles live: default manager first, then every manager
     hr = repo.method("hexital.core.hexital", "Hexital", "reading")
     rbi_calls = [c for c in calls_in(hr.node) if call_name(c) == "reading_by_index"]
-    loops = [n for n in hr.node.body if isinstance(n, ast.For) and ast.unparse(n.iter) == "self._candles.values()"]
+    _defs = {n.targets[0].id: ast.unparse(n.value) for n in ast.walk(hr.node) if isinstance(n, ast.Assign) and len(n.targets) == 1 and isinstance(n.targets[0], ast.Name)}
+
+    def _covers_all(it):
+        t = ast.unparse(it)
+        t = _defs.get(t, t)
+        return "self._candles.values()" in t
+
+    loops = [n for n in hr.node.body if isinstance(n, ast.For) and _covers_all(n.iter)]
     ok = False
     if loops and len(rbi_calls) >= 1:
         lv = ast.unparse(loops[0].target)
